@@ -32,6 +32,7 @@ import (
 	"context"
 	"crypto/sha256"
 	"encoding/json"
+	"errors"
 	"fmt"
 	"io"
 	"log/slog"
@@ -78,6 +79,44 @@ type regAttempt struct {
 	crash    bool
 }
 
+// pullTrace is what one pull told its Trace about each layer, per
+// Registry.Pull invocation (an invocation starts with an update (0, nil) for
+// every layer; the handler's retries are separate invocations).
+type pullTrace struct {
+	model  *regModel
+	layers map[string]*layerTrace
+}
+
+type layerTrace struct {
+	downloads int // updates with progress and no error
+	cached    int // updates with ErrCached
+}
+
+func (pt *pullTrace) ctx(ctx context.Context) context.Context {
+	return ollama.WithTrace(ctx, &ollama.Trace{Update: func(l *ollama.Layer, n int64, err error) {
+		d := l.Digest.String()
+		lt := pt.layers[d]
+		if lt == nil {
+			lt = &layerTrace{}
+			pt.layers[d] = lt
+		}
+		switch {
+		case n == 0 && err == nil:
+			*lt = layerTrace{}
+		case errors.Is(err, ollama.ErrCached):
+			lt.cached++
+		case err == nil:
+			lt.downloads++
+		}
+	}})
+}
+
+// trusted: the invocation took the layer (or every chunk of it) from the cache without downloading anything.
+func (pt *pullTrace) trusted(digest string) bool {
+	lt := pt.layers[digest]
+	return lt != nil && lt.downloads == 0 && lt.cached > 0
+}
+
 type regWorld struct {
 	t     *testing.T
 	sim   *verifsim.Sim
@@ -94,7 +133,7 @@ type regWorld struct {
 
 	lastOps  int
 	phase    string
-	inflight int
+	inflight []*pullTrace
 	desc     []string
 	info     map[string]int
 }
@@ -108,10 +147,19 @@ func (w *regWorld) note(f string, a ...any) {
 func (w *regWorld) violate(class, sig, f string, a ...any) {
 	msg := fmt.Sprintf(f, a...) + "\ncase:\n  " + strings.Join(w.desc, "\n  ")
 	tail := w.reg.log
-	if len(tail) > 40 {
+	if len(tail) > 40 && os.Getenv("VERIF_DUMP") == "" {
 		tail = tail[len(tail)-40:]
 	}
 	msg += "\nlast requests at the registry:\n  " + strings.Join(tail, "\n  ")
+	fl := w.ctl.Log
+	if len(fl) > 60 && os.Getenv("VERIF_DUMP") == "" {
+		fl = fl[len(fl)-60:]
+	}
+	msg += "\nlast mutating file-system calls:\n  " + strings.Join(fl, "\n  ")
+	if p := os.Getenv("VERIF_DUMP"); p != "" {
+		// development aid: the driver prints only the head of a message
+		os.WriteFile(p, []byte(sig+"\n"+msg+"\n"), 0o644)
+	}
 	verifsim.Violate(regProp, class, sig, msg)
 }
 
@@ -149,7 +197,7 @@ func newRegWorld(t *testing.T, sim *verifsim.Sim) *regWorld {
 		panic(err)
 	}
 	w.cache = c
-	w.ctl = &vfs.Control{Roots: []string{base + string(filepath.Separator)}, CrashAt: -1, LogCap: 200}
+	w.ctl = &vfs.Control{Roots: []string{base + string(filepath.Separator)}, CrashAt: -1, LogCap: 4000}
 	vfs.Ctl = w.ctl
 	w.reg = newSimReg(sim.Now)
 	w.reg.pushViol = func(sig, msg string) { w.violate("push-order", sig, "%s", msg) }
@@ -424,6 +472,8 @@ func (w *regWorld) checkLayers(manifest []byte) (parsed bool, probs []layerProbl
 		if l == nil {
 			continue
 		}
+		// hex digits of either case denote the same digest (a flipped bit in a served manifest can change the case)
+		l.Digest = strings.ToLower(l.Digest)
 		p := filepath.Join(w.dir, "blobs", strings.Replace(l.Digest, ":", "-", 1))
 		b, err := os.ReadFile(p)
 		switch {
@@ -459,25 +509,27 @@ func (w *regWorld) damage(digest string, got []byte) string {
 	return fmt.Sprintf("%d differing bytes in [%d,%d], %d of them zero", nbad, first, last, zero)
 }
 
-// layerCause names what the registry saw for that layer during the current attempt.
-func (w *regWorld) layerCause(digest string) string {
-	st := w.reg.stats[digest]
-	switch {
-	case st == nil || st.requests == 0:
-		return "trusted-existing-file"
-	case st.plan != "" && st.plan != planContiguous:
-		return "plan-" + st.plan
-	case len(st.faults) > 0:
-		return st.faults[0]
+// layerCause names how the pull(s) that could have linked the name came by the layer.
+func (w *regWorld) layerCause(pts []*pullTrace, digest string) string {
+	for _, pt := range pts {
+		if pt.trusted(digest) {
+			return "trusted-existing-file"
+		}
 	}
-	return "none"
+	if st := w.reg.stats[digest]; st != nil && st.plan != "" && st.plan != planContiguous {
+		return "plan-" + st.plan
+	}
+	return "downloaded"
 }
 
-// auditName is the pull oracle for one name. outcome: "success" (want = the
-// manifest served), "failed", "linked" (step level), "end".
-func (w *regWorld) auditName(m *regModel, outcome string, wants [][]byte) {
+// auditName is the pull oracle for one name. outcome "success": a pull that
+// reported success (or is about to: the step at which the name became linked)
+// - wants = the manifests served, pts = the pulls that can have linked it.
+// outcome "standing": a quiescent point (after an attempt, at the end): if the
+// name resolves to a manifest at all, its layers are intact.
+func (w *regWorld) auditName(m *regModel, outcome string, mustResolve bool, wants [][]byte, pts []*pullTrace) {
 	_, mb, found := w.findManifest(m.name)
-	if outcome == "success" {
+	if mustResolve {
 		if !found {
 			w.violate("pull-audit", "pull-audit:success:name-unresolved", "the pull of %s reported success but the name does not resolve", m.name)
 			return
@@ -503,8 +555,11 @@ func (w *regWorld) auditName(m *regModel, outcome string, wants [][]byte) {
 	}
 	if len(probs) > 0 {
 		p := probs[0]
-		w.violate("pull-audit", "pull-audit:"+outcome+":"+p.kind+":"+w.layerCause(p.digest),
-			"%s: %s resolves to manifest %s, but %s (%d layer problems)", outcome, m.name, sha256Hex(mb)[:19], p.detail, len(probs))
+		sig := "pull-audit:" + outcome + ":" + p.kind
+		if outcome == "success" {
+			sig += ":" + w.layerCause(pts, p.digest)
+		}
+		w.violate("pull-audit", sig, "%s (%s): %s resolves to manifest %s, but %s (%d layer problems)", outcome, w.phase, m.name, sha256Hex(mb)[:19], p.detail, len(probs))
 	}
 }
 
@@ -524,8 +579,14 @@ func (w *regWorld) onStep() {
 			continue
 		}
 		m.lastSha = sha
-		// the name has just become linked to these bytes
-		w.auditName(m, "linked", nil)
+		// the name has just become linked to these bytes, by one of the pulls of the model in flight
+		var pts []*pullTrace
+		for _, pt := range w.inflight {
+			if pt.model == m {
+				pts = append(pts, pt)
+			}
+		}
+		w.auditName(m, "success", false, nil, pts)
 	}
 }
 
@@ -559,19 +620,25 @@ func (w *regWorld) runAttempt(k int, a regAttempt) {
 			name = m.variants[a.variant-1]
 		}
 		r := &result{m: m}
-		w.inflight++
+		pt := &pullTrace{model: m, layers: map[string]*layerTrace{}}
+		w.inflight = append(w.inflight, pt)
 		verifsim.Go(fmt.Sprintf("pull%d.%d", k, i), func() {
-			r.ok, r.detail = w.pullVia(ctx, a.how, name)
+			r.ok, r.detail = w.pullVia(pt.ctx(ctx), a.how, name)
 			w.note("attempt %d: %s of %s -> %v (%s)", k+1, [...]string{"POST /api/pull (stream)", "POST /api/pull (no stream)", "Registry.Pull"}[a.how], name, r.ok, r.detail)
 			if r.ok {
 				verifsim.Probe("pull_success")
 				// any manifest body completely delivered for this name during the attempt may be the one this pull was served
 				wants := w.reg.deliveredAll[m.repo+":"+m.tag]
-				verifsim.Atomic(func() { w.auditName(m, "success", wants) })
+				verifsim.Atomic(func() { w.auditName(m, "success", true, wants, []*pullTrace{pt}) })
 			} else {
 				verifsim.Probe("pull_failed")
 			}
-			w.inflight--
+			for i, x := range w.inflight {
+				if x == pt {
+					w.inflight = append(w.inflight[:i], w.inflight[i+1:]...)
+					break
+				}
+			}
 			finished <- r
 		})
 	}
@@ -585,7 +652,7 @@ func (w *regWorld) runAttempt(k int, a regAttempt) {
 	// quiescent for these names: failed or not, what resolves must be intact
 	verifsim.Atomic(func() {
 		for _, m := range w.models {
-			w.auditName(m, "failed", nil)
+			w.auditName(m, "standing", false, nil, nil)
 		}
 	})
 }
@@ -655,7 +722,7 @@ func (w *regWorld) driver(done *bool) {
 	w.phase = "end"
 	verifsim.Atomic(func() {
 		for _, m := range w.models {
-			w.auditName(m, "end", nil)
+			w.auditName(m, "standing", false, nil, nil)
 		}
 	})
 	*done = true
